@@ -12,14 +12,15 @@ LEVEL = "exploration"
 LANDMARK_PAIRS = {("PoseSE2", "PoseR2"), ("PoseSE3", "PoseR3"), ("PoseR2", "PoseR2"), ("PoseR3", "PoseR3")}
 EST_TYPES = POSES + ["ndarray", "float"]
 OFF_TYPES = POSES + ["ndarray", "None"]
-ID_STATES = ["matching", "mismatching", "unbound", "length-mismatch", "repeated"]
+ID_STATES = ["matching", "mismatching", "unbound", "length-mismatch", "repeated", "matching-tuple"]
+# "matching-tuple": the ids are given in a tuple instead of a list (any sequence of ids names the vertices)
 # "repeated": the last id repeats the first one (and is bound to the same vertex object): the number of vertices an edge names
 # is the length of its id list, not the number of distinct ids
 
 
 def consistent(edge_cls, vtypes, est, off, shape, ids):
     """The checker's consistency table, taken from the property text."""
-    if ids not in ("matching", "repeated") or len(vtypes) != 2:
+    if ids not in ("matching", "repeated", "matching-tuple") or len(vtypes) != 2:
         return False
     t1, t2 = vtypes
     if edge_cls == "EdgeOdometry":
@@ -64,6 +65,8 @@ def evaluate(pkg, vals, edge_cls, vtypes, est, off, shape, ids):
             return "not-well-formed"          # one vertex has one type
         id_polys = id_polys[:-1] + [id_polys[0]]
 
+    seq = tuple if ids == "matching-tuple" else list
+
     def run(it):
         verts = []
         for k, t in enumerate(vtypes):
@@ -79,10 +82,10 @@ def evaluate(pkg, vals, edge_cls, vtypes, est, off, shape, ids):
             vlist = verts[:-1]
         e_est = vals.of(est, "est") if est not in POSES else vals.pose_est[est]
         if edge_cls == "EdgeOdometry":
-            e = it.construct(edge_cls, [list(id_polys), vals.info[shape], e_est, vlist])
+            e = it.construct(edge_cls, [seq(id_polys), vals.info[shape], e_est, vlist])
         else:
             e_off = vals.of(off, "off") if off not in POSES else vals.pose_off[off]
-            e = it.construct(edge_cls, [list(id_polys), vals.info[shape], e_est, e_off], dict(vertices=vlist))
+            e = it.construct(edge_cls, [seq(id_polys), vals.info[shape], e_est, e_off], dict(vertices=vlist))
         return it.call_method(e, "is_valid", [])
     paths = explore(pkg, run, hook=distinct_names_hook, max_paths=64)
     outs = set()
